@@ -17,12 +17,12 @@ CHECKS = {
    design="5 C04, 4.3"),
  "C01": dict(
    technique="TLA+ specs Topics/SubIndex model-checked with TLC; TLC-generated domains and subscribe/unsubscribe histories executed on the real trie and replicated subscription state; answers validated by TLC against Matches (trace validation)",
-   text="Exhaustive within bounds at index level: every valid filter x every topic of <=3 (quick) / <=4 (thorough) levels over {a,b,''} plus wildcards, on subscriptions.Tree.Walk and SubscriptionsState.ByPattern; all ordered filter pairs at 2 levels; all TLC-generated subscribe/unsubscribe/re-subscribe histories of depth 3-4 over prefix-related filters; seeded random filter sets beyond. Every answer must equal {active subscriptions whose filter Matches the topic}, each once. Broker level: histories on one node and on two nodes with at-least-once gossip; SUBSCRIBE / UNSUBSCRIBE packets carrying several filters; overlapping operations (a SUBSCRIBE / UNSUBSCRIBE / PUBLISH parked at a scheduler gate inside its handler while others complete) judged by RaceTrace.tla.",
+   text="Exhaustive within bounds at index level: every valid filter x every topic of <=3 (quick) / <=4 (thorough) levels over {a,b,''} plus wildcards, on subscriptions.Tree.Walk and SubscriptionsState.ByPattern; all ordered filter pairs at 2 levels; all TLC-generated subscribe/unsubscribe/re-subscribe histories of depth 3-4 over prefix-related filters; seeded random filter sets beyond. Every answer must equal {active subscriptions whose filter Matches the topic}, each once. Broker level: histories on one node and on two nodes with at-least-once gossip; SUBSCRIBE / UNSUBSCRIBE packets carrying several filters; overlapping operations (a SUBSCRIBE / UNSUBSCRIBE / PUBLISH parked at a scheduler gate inside its handler while others complete) judged by RaceTrace.tla. Round 6: one of two matching subscribers stops reading for a burst of 1650 on a log pre-filled to 2450 (the consumer is carried over a truncation point).",
    note="Trusts TLC, the Json module; strings are built by joining level sequences (ground truth). Invalid filters excluded.",
    design="5 C01, 4.1"),
  "C19": dict(
    technique="TLA+ spec TopicStore model-checked with TLC; TLC-generated operation sequences executed on both real tries; lookups/Count/Iterate after every step validated against the map by TLC (trace validation)",
-   text="Exhaustive within bounds: every sequence of 4 (quick) / 5 (thorough) operations - write (insert or replace), remove, dump, load-last-dump over 5 keys - plus simulated sequences of depth 8-10, on topics.Store and subscriptions.Tree, with prefix-related, empty-level and deep key sets; after every operation all exact-key lookups, Count and Iterate (as a multiset) must equal the map TopicStore.tla; no operation may panic. The retained store as the broker uses it behind the replicated state: histories pushed whole into a fresh replica.",
+   text="Exhaustive within bounds: every sequence of 4 (quick) / 5 (thorough) operations - write (insert or replace), remove, dump, load-last-dump over 5 keys - plus simulated sequences of depth 8-10, on topics.Store and subscriptions.Tree, with prefix-related, empty-level and deep key sets; after every operation all exact-key lookups, Count and Iterate (as a multiset) must equal the map TopicStore.tla; no operation may panic. The retained store as the broker uses it behind the replicated state: histories pushed whole into a fresh replica. Round 6: concurrent histories on both stores with dump-and-load snapshots under the race detector, judged by Lin.tla (a snapshot equals the map at one moment between call and return).",
    note="Trusts TLC and the Json module. Return values of Insert/Remove are not constrained (not part of C19).",
    design="5 C19, 4.1"),
  "C07": dict(
@@ -32,7 +32,7 @@ CHECKS = {
    design="5 C07, 4.9"),
  "C08": dict(
    technique="TLA+ spec Crdt model-checked with TLC (Convergence, Lww); TLC-generated write histories on skewed clocks executed on real replicas with every delivery order x batching x duplication; every replica listing validated by TLC against LWW over the updates it has seen (trace validation)",
-   text="Exhaustive within bounds: all histories of 3 (thorough 4) local writes on 2-3 nodes with clock skews 0/+2/-2 per map (sessions, subscriptions, retained), plus simulated histories with interleaved deliveries; the messages of each history are delivered to fresh real replicas in every permutation x every composition into batches, plus duplicated re-delivery; every probe must list per key the value of the greatest-timestamp update seen.",
+   text="Exhaustive within bounds: all histories of 3 (thorough 4) local writes on 2-3 nodes with clock skews 0/+2/-2 per map (sessions, subscriptions, retained), plus simulated histories with interleaved deliveries; the messages of each history are delivered to fresh real replicas in every permutation x every composition into batches, plus duplicated re-delivery; every probe must list per key the value of the greatest-timestamp update seen. Round 6: every other retained history uses topic names that differ only in empty levels ('a/', 'a', 'a//').",
    note="Trusts TLC, the Json module and the verif-tagged clock hook. Assumes distinct updates carry distinct timestamps and session ids are never re-created.",
    design="5 C08, 4.7"),
  "C09": dict(
@@ -47,7 +47,7 @@ CHECKS = {
    design="5 C10, 4.7"),
  "C16": dict(
    technique="TLA+ spec Auth model-checked with TLC; TLC-generated credential-table shapes materialised as files for the real auth.FileHandler/StaticHandler; every load and Authenticate outcome validated by TLC against Admit/MountOf (trace validation)",
-   text="Exhaustive within bounds: every table shape over 5 (thorough 6) user names (absent / 2-field / 3-field line) x line orders (sorted, reversed, seeded shuffles); per table every present user with right / empty / wrong / another user's password, every absent user, empty and unknown user names; three-field lines with an empty mount column; the static store with all 16 combinations. Load must succeed and each outcome must equal Admit with the entry's mount point (default when none). Candidates include near misses of every configured pair: user/password boundary moved, swapped, joined, padded, case-changed, truncated, doubled. Reconnection storms (8-12 goroutines on one shared handler); CONNECT packets larger than 64 KiB at broker level.",
+   text="Exhaustive within bounds: every table shape over 5 (thorough 6) user names (absent / 2-field / 3-field line) x line orders (sorted, reversed, seeded shuffles); per table every present user with right / empty / wrong / another user's password, every absent user, empty and unknown user names; three-field lines with an empty mount column; the static store with all 16 combinations. Load must succeed and each outcome must equal Admit with the entry's mount point (default when none). Candidates include near misses of every configured pair: user/password boundary moved, swapped, joined, padded, case-changed, truncated, doubled. Reconnection storms (8-12 goroutines on one shared handler); CONNECT packets larger than 64 KiB at broker level. Round 6: CONNECTs that arrive in two TCP segments (cut after 1-5 bytes) while 21 established sessions ping, against a credentials file.",
    note="Trusts TLC and the Json module. User names with ':' '\"' newline and duplicate user names are not generated.",
    design="5 C16, 4.9"),
  "C15": dict(
@@ -57,7 +57,7 @@ CHECKS = {
    design="5 C15, 4.6"),
  "C02": dict(
    technique="TLA+ specs MsgLog/Inbound model-checked with TLC (TruncSafe with Margin-0 negative control); TLC-generated publish/subscribe scripts and seeded long runs executed on a real in-process node; the recorded trace validated by TLC against the broker specification BrokerTrace incl. the quiescence obligation (trace validation)",
-   text="Every TLC-generated script of 3 (thorough 4) steps in which clients both publish (QoS 0/1/2, delayed PUBREL) and subscribe on a fresh node (first message ever stored included); seeded long runs of bursts with payloads up to 70 KB crossing the 500-entry segment roll and the truncations at 2000/3000 with a gated subscriber that makes the writer lag by a full queue at the truncation points, on empty and pre-filled logs. At quiescence every acknowledged publish must have reached every session that stayed connected with a matching subscription, topic and payload (length+CRC) intact. A subscriber that stops reading for a whole burst carrying the log past a truncation point, then resumes, must still receive everything (writer lagging far behind the log consumer). PUBRELs that arrive after their handshake has timed out; two-node QoS 1 scripts in which the log or the link of one destination fails and recovers.",
+   text="Every TLC-generated script of 3 (thorough 4) steps in which clients both publish (QoS 0/1/2, delayed PUBREL) and subscribe on a fresh node (first message ever stored included); seeded long runs of bursts with payloads up to 70 KB crossing the 500-entry segment roll and the truncations at 2000/3000 with a gated subscriber that makes the writer lag by a full queue at the truncation points, on empty and pre-filled logs. At quiescence every acknowledged publish must have reached every session that stayed connected with a matching subscription, topic and payload (length+CRC) intact. A subscriber that stops reading for a whole burst carrying the log past a truncation point, then resumes, must still receive everything (writer lagging far behind the log consumer). PUBRELs that arrive after their handshake has timed out; two-node QoS 1 scripts in which the log or the link of one destination fails and recovers. Round 6: a second stalled-subscriber run (burst of 1650 on a log pre-filled to 2450).",
    note="Trusts TLC, the Json module, the harness seams and completion hooks. Long runs are seeded samples; the scripts are exhaustive within their bounds.",
    design="5 C02, 4.6, 4.5"),
  "C03": dict(
@@ -87,7 +87,7 @@ CHECKS = {
    design="5 C12, 4.8"),
  "C13": dict(
    technique="TLA+ spec Session model-checked with TLC (WillIffUnclean); TLC-generated scripts for will-carrying sessions executed on real nodes with watchers; will appends and deliveries validated by TLC against BrokerTrace (trace validation)",
-   text="Will QoS 0-2, retained or not, multi-level topic, tenant A, host node 1 or 2; causes DISCONNECT / close / malformed / keep-alive expiry / node failure at every position of scripts of depth 4 (thorough 5); watchers with '#', '+', exact and non-matching filters on two nodes and in another tenant: the will is appended only after an unclean end, under the tenant-prefixed topic, and every matching watcher receives it once per matching subscription; never after DISCONNECT. Plus three-node failures: the two survivors are told in either order, with or without the first survivor's gossip delivered in between. Silent will-carrying sessions must end (a subscription-less session silent for four keep-alives is not served any more); displaced will-carrying sessions (never published twice); sessions that connect and end within one gossip interval before their node fails, with the peer hearing of it newest first / with retransmissions.",
+   text="Will QoS 0-2, retained or not, multi-level topic, tenant A, host node 1 or 2; causes DISCONNECT / close / malformed / keep-alive expiry / node failure at every position of scripts of depth 4 (thorough 5); watchers with '#', '+', exact and non-matching filters on two nodes and in another tenant: the will is appended only after an unclean end, under the tenant-prefixed topic, and every matching watcher receives it once per matching subscription; never after DISCONNECT. Plus three-node failures: the two survivors are told in either order, with or without the first survivor's gossip delivered in between. Silent will-carrying sessions must end (a subscription-less session silent for four keep-alives is not served any more); displaced will-carrying sessions (never published twice); sessions that connect and end within one gossip interval before their node fails, with the peer hearing of it newest first / with retransmissions. Round 6: 18 interleavings in which a will-carrying client hangs up or pipelines DISCONNECT while its own CONNECT, SUBSCRIBE or teardown is parked at a scheduler gate, judged by the will rules of RaceTrace.tla.",
    note="Trusts TLC, the Json module, the harness. Displacement is not among C13's causes (will allowed, not required).",
    design="5 C13, 4.8"),
  "C17": dict(
@@ -97,12 +97,12 @@ CHECKS = {
    design="5 C17, 4.8"),
  "C18": dict(
    technique="TLA+ spec ConnFsm model-checked with TLC; TLC-generated packet-type sequences, each malformed input realised by structure-aware byte mutations, sent to real brokers running in child processes with a witness round trip after every stream; process deaths observed directly, traces validated by TLC against BrokerTrace (trace validation)",
-   text="Every sequence of 3 inputs (thorough: + 20000 of length 4) over all 14 control packet types, MALFORMED and EOF before CONNECT, plus about 1000 byte-level mutations (truncation at every offset with EOF, first-byte values, remaining-length edge values up to 268435455 and 5-byte lengths, inner length prefixes, QoS 3, empty lists, identifier 0, seeded random bytes) each alone before and after a valid CONNECT: the broker process must survive (a panic kills the child process and is reported with the stream), only the offender's session may end, the witness pair's QoS 1 round trip must succeed after every stream, nothing may stall. Well-formed protocol violations are always-run streams (wildcard and odd topic names, retained or not; misplaced wildcards in filters; retained will on a wildcard topic); the witness also publishes retained messages and periodically a new client connects, subscribes (retained replay), pings and leaves. Reserved requested-QoS values on filters that match other clients' topics; a subscriber that stops reading (blocking writes that fail at the write deadline on the virtual clock) must not stall the others.",
+   text="Every sequence of 3 inputs (thorough: + 20000 of length 4) over all 14 control packet types, MALFORMED and EOF before CONNECT, plus about 1000 byte-level mutations (truncation at every offset with EOF, first-byte values, remaining-length edge values up to 268435455 and 5-byte lengths, inner length prefixes, QoS 3, empty lists, identifier 0, seeded random bytes) each alone before and after a valid CONNECT: the broker process must survive (a panic kills the child process and is reported with the stream), only the offender's session may end, the witness pair's QoS 1 round trip must succeed after every stream, nothing may stall. Well-formed protocol violations are always-run streams (wildcard and odd topic names, retained or not; misplaced wildcards in filters; retained will on a wildcard topic); the witness also publishes retained messages and periodically a new client connects, subscribes (retained replay), pings and leaves. Reserved requested-QoS values on filters that match other clients' topics; a subscriber that stops reading (blocking writes that fail at the write deadline on the virtual clock) must not stall the others. Round 6: the broker behind its real TCP / TLS / WebSocket / WSS listeners on loopback (one process per scenario): ordinary traffic, slow readers that block the writer and then send requests, eight framings of one MQTT stream in WebSocket messages, peers that misbehave below MQTT; judged by TransportTrace.tla.",
    note="Trusts TLC, the Json module, the harness. Which bytes realise 'malformed' is outside TLA+. Quick samples 3200 of the streams (seeded).",
    design="5 C18, 8"),
  "C20": dict(
    technique="Recorded concurrent histories of the real shared objects checked for linearizability by TLC against the sequential TLA+ specifications (Lin.tla over IdPool, AckQueue, a registry map, TopicStore); whole-broker stress checked by TLC against StressTrace.tla; everything runs under the Go race detector",
-   text="Sampled, not enumerated: 224 (thorough 2400) seeded concurrent histories of 4-8 goroutines on the identifier pool, the in-flight table, the local registry and both tries (linearizability decided by TLC), concurrent writers on two replicated-state nodes with gossip and full-state pushes (must list the same after a full exchange), the expiration list (every timeout fires once), and whole-broker stress runs (about 1000 connections with re-used client ids, 2600 publishes at QoS 0/1/2 in 4 s; thorough 6 x 30 s) whose post-stress obligations (acknowledged publishes reached every stable subscriber; listings, registries and identifier pool clean) are checked by TLC. A race report whose racing access lies in the repository is a violation. Focused concurrent histories on the in-flight table; broker panics under stress are violations; 'hasty client' interleavings (set-up parked where it registers the session while the client hangs up: the registry keeps no ghost).",
+   text="Sampled, not enumerated: 224 (thorough 2400) seeded concurrent histories of 4-8 goroutines on the identifier pool, the in-flight table, the local registry and both tries (linearizability decided by TLC), concurrent writers on two replicated-state nodes with gossip and full-state pushes (must list the same after a full exchange), the expiration list (every timeout fires once), and whole-broker stress runs (about 1000 connections with re-used client ids, 2600 publishes at QoS 0/1/2 in 4 s; thorough 6 x 30 s) whose post-stress obligations (acknowledged publishes reached every stable subscriber; listings, registries and identifier pool clean) are checked by TLC. A race report whose racing access lies in the repository is a violation. Focused concurrent histories on the in-flight table; broker panics under stress are violations; 'hasty client' interleavings (set-up parked where it registers the session while the client hangs up: the registry keeps no ghost). Round 6: snapshots in the concurrent store histories; packets cut into two segments while 21 other sessions ping or connect (shared per-connection state); a runtime 'concurrent map' stop in repository code is a violation.",
    note="Trusts TLC, the Json module, the Go race detector. Schedules are whatever the Go scheduler produced. The whole-broker stress uses an in-memory message log (the commitlog dependency has races of its own). Lin.tla documents three tolerated non-atomicities (two-step Insert, element-wise sweep, key-only timeout entries).",
    design="5 C20, 4.9"),
 }
